@@ -1009,7 +1009,7 @@ def rotate_shift_mask_simplifier(a, b):
     lshift_ = a_01.args[0]
     rshift_ = a_11.args[0]
     bitwidth = lshift_ + rshift_
-    if bitwidth not in (32, 64):
+    if bitwidth not in (32, 64) or a_00.size() != bitwidth:
         return None
 
     # is the second argument a mask?
